@@ -2,7 +2,7 @@
    implementation's events (kind 2). *)
 From stdpp Require Import list.
 From Coq Require Import ZArith.
-From Verif Require Import S2.Model S2.Replay C19.Spec.
+From Verif Require Import S2.Model S2.Replay C19.Spec C19.Moments.
 Open Scope Z_scope.
 
 Definition backlog_ok (chain : list Z) (flen : nat) (q : Z * option (list (Z * Z) * Z)) : bool :=
@@ -53,7 +53,80 @@ Definition monitor_row (c : bcase) : list (Z * Z * Z * Z) :=
   | None => []
   end.
 
-Definition verdict (c : bcase) : list (Z * Z * Z * Z) :=
-  mismatch_row c ++ trap_row c ++ monitor_row c.
+(* ---------- backlog probes at moments inside an operation ----------
+   A probe (k, answers): the harness's event consumer took exactly k events of
+   the operation from the unbuffered notification channel, waited until the
+   block manager was blocked sending the next one (or the operation had
+   returned; then k = number of events of the operation), and called
+   NotificationsSinceHeight h for the listed heights. *)
+Definition answers := list (Z * option (list (Z * Z) * Z)).
+Record mcase := {
+  mbase : bcase;
+  mprobes : list (Z * list (Z * answers))     (* (step, [(k, answers)]) *)
+}.
 
-Definition run_cases (cs : list bcase) : list (Z * Z * Z * Z) := flat_map verdict cs.
+Definition probes_of (pr : list (Z * list (Z * answers))) (i : Z) : list (Z * answers) :=
+  flat_map (fun p => if p.1 =? i then p.2 else []) pr.
+
+(* kind 1: the model's moment backlog ([notifs_at_moment]) vs the implementation's *)
+Fixpoint probe_mismatch (P : params) (s : state) (i : Z) (tr : list (op * obs))
+         (pr : list (Z * list (Z * answers))) : option Z :=
+  match tr with
+  | [] => None
+  | (o, ob) :: rest =>
+    let s' := step P s o in
+    let ok := forallb (fun kp : Z * answers =>
+                let model := map (fun q : Z * option (list (Z * Z) * Z) =>
+                                    (q.1, notifs_at_moment s s' (zn kp.1) q.1)) kp.2 in
+                list_eqb since_eqb model kp.2) (probes_of pr i) in
+    if ok then probe_mismatch P s' (i + 1) rest pr else Some i
+  end.
+
+(* kind 2: the spec on the implementation's own events and answers: the
+   backlog is exact for the committed chain of the moment, and backlog plus
+   the remaining events of the operation reproduce the committed chain after
+   the operation *)
+Definition probe_ok (cb ca : list Z) (evs : list ev) (kp : Z * answers) : bool :=
+  let k := zn kp.1 in
+  let cm := committed_at cb ca evs k in
+  (k <=? length evs)%nat &&
+  forallb (fun q : Z * option (list (Z * Z) * Z) =>
+    backlog_ok cm (length cm) q &&
+    match q with
+    | (h, Some (l, _)) =>
+      if (0 <? h) && (h <=? zlen cm - 1) then
+        match replay (take (zn h + 1) cm) (map (fun p : Z * Z => EConn p.1 p.2) l ++ drop k evs) with
+        | Some r => list_eqb Z.eqb r ca
+        | None => false
+        end
+      else true
+    | _ => true
+    end) kp.2.
+
+Fixpoint first_bad_moment (prev_chain : list Z) (prev_f : nat) (i : Z) (tr : list (op * obs))
+         (pr : list (Z * list (Z * answers))) : option Z :=
+  match tr with
+  | [] => None
+  | (o, ob) :: rest =>
+    let chain := o_chain ob in
+    let f := length (o_fchain ob) in
+    if forallb (probe_ok (take prev_f prev_chain) (take f chain) (o_events ob)) (probes_of pr i)
+    then first_bad_moment chain f (i + 1) rest pr
+    else Some i
+  end.
+
+Definition moment_rows (c : mcase) : list (Z * Z * Z * Z) :=
+  let b := mbase c in let P := bparams b in
+  (match probe_mismatch P (init_state P (bgfh b)) 0 (btrace b) (mprobes c) with
+   | Some i => [(bid b, 1, i, 5)]
+   | None => []
+   end) ++
+  (match first_bad_moment [hid (genesis P)] 1 0 (btrace b) (mprobes c) with
+   | Some i => [(bid b, 2, i, 0)]
+   | None => []
+   end).
+
+Definition verdict (c : mcase) : list (Z * Z * Z * Z) :=
+  mismatch_row (mbase c) ++ trap_row (mbase c) ++ monitor_row (mbase c) ++ moment_rows c.
+
+Definition run_cases (cs : list mcase) : list (Z * Z * Z * Z) := flat_map verdict cs.
